@@ -25,6 +25,7 @@ SPEC_DELETE = {("Any", "None"): (True, True), ("Any", "Some"): (True, True),
 
 
 def run(db, chk):
+    log_mode_rule(db, chk)
     f = db.one(F)
     fl = Flow(f)
     # sinks
@@ -76,3 +77,76 @@ def run(db, chk):
     chk.ob("locks-released-by-drop", "lock is a gix_lock type", any("gix_lock::Marker" in t or "gix_lock::File" in t for t in lock_tys), str(sorted(lock_tys))[:200], key="lock-type")
     forget_lock = [(g.name, c.line) for g in db.by_crate["gix_lock"] for c in g.calls() if c.is_(r"core::mem::forget$")]
     chk.ob("locks-released-by-drop", "no mem::forget in gix_lock", not forget_lock, str(forget_lock[:3]), key="no-forget|gix_lock")
+
+
+def log_mode_rule(db, chk):
+    """an edit whose log mode is RefLog::Only (e.g. the parent half of a split deref edit) never removes the reference itself: every removal of a
+    reference file in commit_inner is guarded by a boolean whose every non-false definition is either the result of `mode == RefLog::AndReference`
+    or lies behind the true edge of such a comparison."""
+    from gx.flow import Flow
+    f = db.one(r"^gix_ref::store_impl::file::transaction::commit::.*commit_inner$")
+    fl = Flow(f)
+    dels = [c for c in f.calls_to(r"std::fs::remove_file$") if fl.derives_from_call(c.args[0], r"::reference_path$")]
+    chk.floor("commit_inner: removal of a reference file", len(dels), 1)
+
+    def is_mode_eq(c):
+        if not c.is_(r"cmp::PartialEq(<.*>)?>?::eq$") or len(c.args) != 2:
+            return False
+        tys = [f.locals[a["p"][0]] if "p" in a and isinstance(a["p"][0], int) else "" for a in c.args]
+        if not any("transaction::RefLog" in t for t in tys):
+            return False
+        # the constant side must be the AndReference variant
+        for a in c.args:
+            for r in fl.roots(a, stop_named=False):
+                if r[0] == "promoted":
+                    pr = f.promoteds.get("%s::{promoted#%s}" % (f.name, r[1]))
+                    if pr is not None and any((rv[0] == "agg" and rv[3] == "AndReference") or (rv[0] == "use" and rv[1].get("variant") == "AndReference") for bi, si, pl, rv, ln, mc in pr.assigns()):
+                        return True
+                if r[0] == "const" and isinstance(r[1], str) and "AndReference" in r[1]:
+                    return True
+        return False
+    eqs = [c for c in f.calls() if is_mode_eq(c)]
+    chk.floor("commit_inner: comparisons `mode == RefLog::AndReference`", len(eqs), 1)
+    true_edges = set()
+    for c in eqs:
+        true_edges |= fl.result_edges(c)["good"]
+    for d in dels:
+        # nearest dominating switch on a plain bool local whose zero edge avoids the removal
+        guard = None
+        b = d.block
+        idom = f.idom()
+        while b is not None and b != 0:
+            b = idom.get(b)
+            if b is None:
+                break
+            t = f.term(b)
+            if t[0] == "switch" and "p" in t[1] and len(t[1]["p"]) == 1 and f.locals[t[1]["p"][0]] == "bool":
+                zero = [x for v, x in t[2] if v == 0]
+                if zero and d.block not in f.reach_from(zero[0], avoid={b}):
+                    guard = (b, t[1]["p"][0])
+                    break
+        if guard is None:
+            chk.ob("reference-removed-only-with-AndReference", "commit_inner remove_file@%d" % d.line, False, "no boolean guard found in front of the removal", d.where(), key="log-mode|commit_inner|guard")
+            continue
+        # the guard local may be a copy of the decisive one
+        L = guard[1]
+        for _ in range(3):
+            ds = [(bi, rv) for bi, si, pl, rv, ln, mc in f.assigns() if pl == [L]]
+            if len(ds) == 1 and ds[0][1][0] == "use" and "p" in ds[0][1][1] and len(ds[0][1][1]["p"]) == 1:
+                L = ds[0][1][1]["p"][0]
+            else:
+                break
+        bad = []
+        for bi, si, pl, rv, ln, mc in f.assigns():
+            if pl != [L]:
+                continue
+            if rv[0] == "use" and "p" not in rv[1] and rv[1].get("v") == 0:
+                continue
+            if not fl.cut_off([bi], true_edges):
+                bad.append(ln)
+        for c in f.calls():
+            if c.dest == [L] and c not in eqs:
+                bad.append(c.line)
+        chk.ob("reference-removed-only-with-AndReference", "commit_inner remove_file@%d" % d.line, not bad,
+               "the flag deciding the removal of the reference file can become true without `mode == RefLog::AndReference` (line(s) %s): a log-only edit - the parent of a split deref edit - would delete its symbolic ref" % sorted(set(bad)),
+               d.where(), key="log-mode|commit_inner|remove_file")
